@@ -22,6 +22,14 @@ class ToolError(Exception):
     """Build failure, TLC error, timeout, vacuity: exit 2, never a VIOLATION."""
 
 
+class HarnessAbort(Exception):
+    """The code under test requested an allocation above the refusal limit (lengths taken from the input): the process
+    cannot survive that, but it leaves a witness naming the operation and the input."""
+    def __init__(self, witness):
+        super().__init__("allocation refused")
+        self.witness = witness
+
+
 def log(*a):
     print(*a, file=sys.stderr, flush=True)
 
@@ -67,7 +75,16 @@ def bin_path(package, target_subdir=None):
 
 
 def run_harness(binp, args, timeout=3600, stdin=None):
-    r = subprocess.run([binp] + args, capture_output=True, text=True, timeout=timeout, input=stdin)
+    wpath = os.path.join(WORK, "tmp", f"witness-{os.getpid()}.json")
+    if os.path.exists(wpath):
+        os.remove(wpath)
+    os.makedirs(os.path.dirname(wpath), exist_ok=True)
+    r = subprocess.run([binp] + args, capture_output=True, text=True, timeout=timeout, input=stdin, env=dict(os.environ, VH_WITNESS=wpath))
+    if r.returncode != 0 and os.path.exists(wpath):
+        w = json.load(open(wpath))
+        os.remove(wpath)
+        w["harness_cmd"] = args[:4]
+        raise HarnessAbort(w)
     if r.returncode != 0:
         raise ToolError(f"harness {' '.join(args[:3])} exited {r.returncode}: {r.stderr[-2000:]}")
     last = [l for l in r.stdout.splitlines() if l.strip()]
@@ -246,6 +263,11 @@ class Verdict:
                     "evaluations": 0, "distinct_nontrivial": 0, "stages": []}
         self.assumptions = []
         self.findings = [f for f in load_findings() if f.get("property") == pid and f.get("status") == "known"]
+        # replay files of earlier runs of this property are stale
+        if os.path.isdir(REPLAYS):
+            for f in os.listdir(REPLAYS):
+                if f.startswith(pid + "-"):
+                    os.remove(os.path.join(REPLAYS, f))
 
     def add_mc(self, res, what):
         self.cov["states"] += res["distinct"]
